@@ -210,7 +210,21 @@ func VerifC13_Sub() {
 	rt.Quiesce(time.Second)
 	api.Handle(append(c13Msg("w2", "update", "tdb:other/x|"), 'J', '{', '}'))
 	rt.Quiesce(time.Second)
-	api.Handle(c13Msg("w3", "delete", "tdb:s/old"))
+	// delete the record created above: later, or within the same second
+	target := "tdb:s/old"
+	if rt.Bool("delete-the-new-record") {
+		target = "tdb:s/new"
+	}
+	sameSecond := rt.Bool("same-second")
+	if sameSecond {
+		// a record created and deleted within one second (time stamps have
+		// one-second resolution)
+		api.Handle(append(c13Msg("w4", "create", "tdb:s/tmp|"), 'J', '{', '}'))
+		rt.Quiesce(time.Millisecond)
+		api.Handle(c13Msg("w5", "delete", "tdb:s/tmp"))
+		rt.Quiesce(time.Second)
+	}
+	api.Handle(c13Msg("w3", "delete", target))
 	rt.Quiesce(time.Second)
 	api.Handle([]byte("s5|cancel"))
 	rt.Quiesce(time.Second)
@@ -218,6 +232,14 @@ func VerifC13_Sub() {
 	for _, r := range c13Replies {
 		if bytes.HasPrefix(r, []byte("s5|")) {
 			kinds = append(kinds, c13Kind(r))
+		}
+	}
+	if sameSecond {
+		rt.Assert(len(kinds) == 5, "sub/notifications-then-done")
+		if len(kinds) == 5 {
+			rt.Assert(kinds[1] == "new" || kinds[1] == "upd" || kinds[1] == "warning", "sub/second-create-notified")
+			rt.Assert(kinds[2] == "del" || kinds[2] == "warning", "sub/same-second-delete-notified-as-delete")
+			kinds = []string{kinds[0], kinds[3], kinds[4]}
 		}
 	}
 	rt.Assert(len(kinds) == 3, "sub/notifications-then-done")
